@@ -41,20 +41,21 @@ def jobs(tier):
     for c in MESH_CLASSES:
         for sz in table[DIM[c]]:
             out.append((c, tier, sz))
+        out.append((c, tier, table[DIM[c]][-1], 'int'))     # integer-dtype face positions
     return out
 
 
-def small_job(cls, tier, sizes):
+def small_job(cls, tier, sizes, dtype='real'):
     """concrete cell counts (down to one cell per axis), symbolic face positions: every index, both constructor forms"""
     sm = SourceModel()
     obs = []
     ci = sm.cls(cls)
 
     def ob(rule, construct, ok, detail=''):
-        obs.append(dict(rule=rule, construct=construct, ok=bool(ok), detail=(f"[{cls} sizes={sizes}] " + str(detail))[:900], loc=ci.loc(), nontrivial=True))
+        obs.append(dict(rule=rule, construct=construct, ok=bool(ok), detail=(f"[{cls} sizes={sizes}{' dtype=int' if dtype == 'int' else ''}] " + str(detail))[:900], loc=ci.loc(), nontrivial=True))
     for uniform in (False, True):
         try:
-            w = World(sm, cls, sizes=sizes, uniform=uniform)
+            w = World(sm, cls, sizes=sizes, uniform=uniform, int_data=(dtype == 'int'))
         except AbstractRaise as e:
             ob('G1' if not uniform else 'G2', f"mesh.{cls}/construct", False, f"constructor raises {e.exc}: {e.msg} ({'(N,L)' if uniform else 'face'} form)")
             continue
